@@ -2251,19 +2251,20 @@ def _validate_reindex(
     def first_or_last():
         return func in ["first", "last"] or (_is_first_last_reduction(func) and array_dtype.kind != "f")
 
+    if isinstance(reindex, ReindexStrategy):
+        reindex_ = reindex
+    else:
+        reindex_ = ReindexStrategy(blockwise=reindex)
+
     all_eager = not is_dask_array and not any_by_dask
-    if reindex is True and not all_eager:
+    # test the normalized strategy: reindex=True and ReindexStrategy(blockwise=True) are the same request
+    if reindex_.blockwise is True and not all_eager:
         if _is_arg_reduction(func):
             raise NotImplementedError
         if method == "cohorts" or (method == "blockwise" and not any_by_dask):
             raise ValueError("reindex=True is not a valid choice for method='blockwise' or method='cohorts'.")
         if first_or_last():
             raise ValueError("reindex must be None or False when func is 'first' or 'last.")
-
-    if isinstance(reindex, ReindexStrategy):
-        reindex_ = reindex
-    else:
-        reindex_ = ReindexStrategy(blockwise=reindex)
 
     if reindex_.blockwise is None:
         if method is None:
